@@ -591,3 +591,10 @@ Definition chk_setters (c : rawcase) : float :=
   fmax (devs dev_exact want (lnth (out c) 0))
        (fmax (devs dev_exact (o_dr o') (lnth (out c) 1))
              (devs dev_exact (map nat2f (match o_files o' with Some l => l | None => [] end)) (lnth (out c) 2))).
+
+(* ================= low-r mean square (C12, LowRM): fl = [r; gr] sc = [limit] zs = [use_default_limit] out = [[value]] ================= *)
+From PyStoG Require Import LowRM.
+Definition chk_lowr (c : rawcase) : float :=
+  let r := lnth (fl c) 0 in let g := lnth (fl c) 1 in
+  let v := if Z.eqb (znth (zs c) 0) 0 then lowr_mean_square r g (fnth (sc c) 0) else get_lowr_mean_square r g in
+  devs dev_pt [v] (lnth (out c) 0).
